@@ -335,13 +335,15 @@ def aborted_run_leaves_completed_nodes_plus_error_state(ctx, n, maxM, pos):
     ctx.assume(k <= calls)                                                          # k == calls: no failure
     k = pick(k, 0, calls)
     answers = [ctx.bool("conv%d" % j) for j in range(n * (maxM + 1) * cap)]
+    # cycles exempt from coupled iterations (their nodes must still be written)
+    skip = [c for c in range(n) if flag(ctx.bool("skipCycle%d" % c))] if n <= 2 else []
     F = IfaceSpec("F", reverse=revF, coupled=coupling)
     P = IfaceSpec("P")
     main, db = IfaceSpec("main", reverse=True), IfaceSpec("database", isDb=True)
     specs = {"first": [F, main, P, db], "between": [main, F, db, P], "after": [main, P, db, F]}[pos]
     cs = UT.mk_cs(nCycles=n, cycles=_cycles(ms), power=1.0e6, burnSteps=None, tightCoupling=coupling,
                   tightCouplingMaxNumIters=cap, tightCouplingSettings={"f_F": {"parameter": "keff", "convergence": 0.5}},
-                  db=True, syncDbAfterWrite=sync)
+                  cyclesSkipTightCouplingInteraction=skip, db=True, syncDbAfterWrite=sync)
     o, r, log = _build(cs, (0, 0), specs, fail="F", k=k, answers=answers)
     raised = False
     try:
@@ -349,7 +351,7 @@ def aborted_run_leaves_completed_nodes_plus_error_state(ctx, n, maxM, pos):
             o.operate()
     except InjectedFailure:
         raised = True
-    ref = reference_events(ms, (0, 0), specs, coupling=coupling, maxIters=cap, answers=answers)
+    ref = reference_events(ms, (0, 0), specs, coupling=coupling, maxIters=cap, answers=answers, skipCycles=skip)
     cut, writes, opened, finalised, at = _expected(ref, "F", k, coupling)
     failed = at is not None
     ctx.check("the injected failure aborts the run (and only then)", raised == failed)
